@@ -115,7 +115,7 @@ def specs(quick: bool) -> list:
         combos += [('a2', 'c3-line4-l1'), ('d11', 'c2-line2-l1'),
                    ('a2', 'c2-line2-l2'), ('a3', 'c3-line4-l1')]
     return [{'name': f'{tp}/bqcompile/{cs}', 'topo': TOPOS[tp],
-             'clients': [[['bqcompile', cs], ['close']]]}
+             'clients': [[['bqcompile', cs], ['close']]], 'numeric': True}
             for tp, cs in combos]
 
 
